@@ -264,6 +264,86 @@ def write_evidence(ctx, level, extra_cov=None, technique=None):
     return path
 
 
+_FORBIDDEN = re.compile(r'\b(Admitted|admit|Axiom|Axioms|Parameter|Parameters|Conjecture|Admit Obligations|bypass_check)\b|Unset Guard Checking|Unset Positivity Checking|Unset Universe Checking')
+
+
+def strip_comments(text):
+    """remove (possibly nested) Coq comments and string literals"""
+    out = []
+    depth = 0
+    i = 0
+    instr = False
+    while i < len(text):
+        if instr:
+            if text[i] == '"':
+                instr = False
+            i += 1
+            continue
+        if text.startswith('(*', i):
+            depth += 1
+            i += 2
+            continue
+        if depth and text.startswith('*)', i):
+            depth -= 1
+            i += 2
+            continue
+        if depth:
+            i += 1
+            continue
+        if text[i] == '"':
+            instr = True
+            i += 1
+            continue
+        out.append(text[i])
+        i += 1
+    return ''.join(out)
+
+
+def forbidden_hits(files):
+    """occurrences of forbidden constructs outside comments/strings; files=None scans all of theories/"""
+    if files is None:
+        files = []
+        for root, _, names in os.walk(THEORIES):
+            files += [os.path.relpath(os.path.join(root, n), VERIF) for n in names if n.endswith('.v')]
+    hits = []
+    for f in sorted(set(files)):
+        try:
+            text = strip_comments(open(os.path.join(VERIF, f)).read())
+        except OSError:
+            continue
+        for m in _FORBIDDEN.finditer(text):
+            hits.append('%s: %s' % (f, m.group(0)))
+            break
+    return hits
+
+
+_REQ = re.compile(r'(?:From\s+CGV\s+)?Require\s+(?:Import|Export)?\s*([^.]*(?:\.[A-Za-z_][^.\s]*)*)\.\s', re.S)
+
+
+def dep_closure(*file_lists):
+    """transitive closure of the CGV files a set of .v files (paths relative to /verif) require"""
+    todo = [f for fl in file_lists for f in fl]
+    seen = set()
+    while todo:
+        f = todo.pop()
+        if f in seen:
+            continue
+        seen.add(f)
+        try:
+            text = strip_comments(open(os.path.join(VERIF, f)).read())
+        except OSError:
+            continue
+        for m in re.finditer(r'Require\s+(?:Import\s+|Export\s+)?(.*?)\.(?=\s)', text, re.S):
+            for name in m.group(1).split():
+                name = name.strip()
+                if name.startswith('CGV.'):
+                    name = name[4:]
+                cand = os.path.join('theories', *name.split('.')) + '.v'
+                if os.path.exists(os.path.join(VERIF, cand)):
+                    todo.append(cand)
+    return sorted(seen)
+
+
 def theorem_names(vfile):
     """names of Theorem/Lemma/Corollary/Example statements in a .v file"""
     names = []
@@ -415,12 +495,17 @@ def run_prop(prop, ctx):
             ctx.broken.append({'kind': 'proof', 'detail': 'coqc %s failed:\n%s' % (prop.prop_file, out[-2500:])})
     for t in thms:
         ctx.obligations.append((t, proof_ok))
-    # forbidden constructs gate
-    rc, out = sh(r"grep -rnE '\b(Admitted|admit|Axiom|Parameter|Conjecture|Unset Guard|bypass_check|Admit Obligations)\b' "
-                 r"--include=*.v theories | grep -v '^theories/Gen/.*GENERATED' || true", cwd=VERIF)
-    hits = [l for l in out.splitlines() if l.strip() and '(*' not in l.split(':', 2)[-1][:3]]
+    # forbidden constructs gate: over the dependency closure of this property's files (what its
+    # theorems and its oracle rest on); the whole tree is scanned too and reported as a note
+    closure = dep_closure([prop.prop_file] if prop.prop_file else [], [d[:-1] for d in prop.vo_deps])
+    hits = forbidden_hits(closure)
     if hits:
         ctx.broken.append({'kind': 'gate', 'detail': 'forbidden construct(s): ' + '; '.join(hits[:5])})
+    other = [h for h in forbidden_hits(None) if h not in hits]
+    if other:
+        ctx.notes.append('forbidden constructs elsewhere in theories/ (not in this property\'s dependency closure): '
+                         + '; '.join(other[:5]))
+    ctx.coverage['dependency_closure_files'] = len(closure)
 
     # 2. cases: corpus first, then generated
     n = prop.thorough_cases if ctx.thorough() else prop.quick_cases
